@@ -6,7 +6,6 @@ an election in which some ballot is cast at least twice, run on the Profile and 
 # oracle failure codes of props/c06.py
 VOTES_COUNT = 38      # votes_count_by_project
 VOTER_FLOW = 39       # voter_flow_matrix
-JR_CODES = (51, 52)   # maximal_cohesive_groups, is_in_core  (cohesive_groups 50 and the EJR/PJR checkers 53/54 agree)
 
 
 def _key(b):
@@ -25,11 +24,6 @@ def _repeated_nonempty_ballot(case):
     return False
 
 
-def _repeated_ballot(case):
-    bs = [_key(b) for b in case.get("ballots", [])]
-    return len(set(bs)) < len(bs)
-
-
 def c06_votes_count_or_flow_on_multiprofile(case, obs, code) -> bool:
     """votes_count_by_project / voter_flow_matrix add 1 per ballot object: on the MultiProfile a ballot cast by several
     voters counts once (pinned by tests/test_analysis.py::test_profile_properties; recorded for C18 as well).
@@ -40,17 +34,3 @@ def c06_votes_count_or_flow_on_multiprofile(case, obs, code) -> bool:
     if not isinstance(case, dict) or case.get("kind") != "analysis":
         return False
     return _repeated_nonempty_ballot(case)
-
-
-def c06_jr_checker_on_multiprofile(case, obs, code) -> bool:
-    """is_in_core and maximal_cohesive_groups size a group by len(group) (the number of distinct ballot objects), so on a
-    MultiProfile a class of k equal ballots weighs 1 (cohesiveness.py documents multiprofiles as unsupported: 'This
-    fails for multiprofiles as the multiplicity is not taken into account').
-    cohesive_groups itself and the EJR/PJR checkers built on it give the same answers on both (a group with all copies
-    of its ballots is cohesive whenever a group with some of the copies is) and are NOT covered by this signature.
-    Signature: is_in_core or maximal_cohesive_groups differs, the case is a JR case, some ballot is cast at least twice."""
-    if code not in JR_CODES:
-        return False
-    if not isinstance(case, dict) or case.get("kind") != "jr":
-        return False
-    return _repeated_ballot(case)
